@@ -17,8 +17,7 @@ INVARIANT AlphabetInv
 INVARIANT FitsInv
 INVARIANT RefuteLength
 INVARIANT RefuteEnds
-INVARIANT RefuteInplacePure
-INVARIANT RefuteInplaceFresh
+INVARIANT RefuteInplace
 CONSTRAINT Bound
 CONSTRAINT EmitOps
 CONSTRAINT EmitWalk
